@@ -21,8 +21,10 @@ From IronCalc Require Import Base.Prelude Base.Dec Codec.XmlEscape Generated.Tab
 Section CellCodec.
   Variable num : Type.
   Variable show_num : num -> text.      (* format!("{v}") of an f64 *)
-  Variable read_num : text -> num.      (* s.parse::<f64>().unwrap_or(0.0) *)
+  Variable read_num : text -> num.      (* s.parse::<f64>().ok().filter(|v| v.is_finite()).unwrap_or(0.0)
+                                           (since /repo 3c03706 a non-finite <v> is read as 0) *)
   Variable formula : Type.              (* what <f> carries; not inspected by the codec *)
+  Variable finite : num -> bool.        (* f64::is_finite *)
 
   Inductive fval : Type :=
   | FUneval | FBool (b : bool) | FNum (n : num) | FText (t : text)
@@ -197,6 +199,15 @@ Section CellCodec.
     | CStrText t _ => forallb text_char_ok t
     | CFormula _ _ v | CArray _ _ _ _ _ v => fval_text_ok v
     | CSpill _ _ (SText t) => forallb text_char_ok t
+    | _ => true
+    end.
+  (* every number in the cell is finite (the engine can store inf / NaN: C08) *)
+  Definition fval_finite (v : fval) : bool := match v with FNum n => finite n | _ => true end.
+  Definition nums_finite (c : cell) : bool :=
+    match c with
+    | CNum n _ => finite n
+    | CFormula _ _ v | CArray _ _ _ _ _ v => fval_finite v
+    | CSpill _ _ (SNum n) => finite n
     | _ => true
     end.
   Definition err_in_range (e : nat) : bool := Nat.ltb e n_err.
